@@ -53,12 +53,15 @@ PROPS = {
                       "distinct streams. NOT proved, only validated: that the draws the real steps consume have the laws these theorems assume, and that long-run pooled estimates stay within Monte-Carlo error. Validation (deterministic for a given "
                       "seed): (a) hook-recorded draws — MH acceptance draws, proposal noise, HMC momenta and uniforms, NUTS momenta, Exp(1) slice draws, direction / adoption / selection uniforms, f32 and f64 — tested against N(0,1) / U[0,1) / Exp(1) "
                       "by mean, variance, Kolmogorov-Smirnov and lag-1 autocorrelation at 6-sigma / p~1e-9 thresholds; (b) 64 chains per sampler started in a random Gaussian target (so every correct kernel keeps them stationary): z-scores of E[x_i], "
-                      "E[x_i x_j], P(x_i > mean+sd) with the standard error taken across the independent chains must stay below 6.",
+                      "E[x_i x_j], P(x_i > mean+sd) with the standard error taken across the independent chains must stay below 6; (c) the same moment tests on chains started from one common displaced point after a burn-in many "
+                      "times the mixing time of these well-conditioned targets (a kernel that is invariant but hardly moves fails here); (d) correlations between the proposal and acceptance streams of a seeded multi-chain MH sampler.",
         "level_note": "This is the one property whose deciding part is statistical: a theorem cannot exhibit a wrong draw distribution, and a calibrated test is not a proof — the claim is therefore labelled partial. A hang or an astronomically deep NUTS tree "
                       "is avoided by cutting histories whose step size collapsed. Detects e.g. momenta of the wrong scale, a squared acceptance draw, Exp(2) slice draws, a kernel bias of a few percent in a second moment; cannot detect biases below "
                       "about 6 standard errors (~1-3 % of a second moment at the quick tier).",
-        "rule": "per repetition (quick 1, thorough 6): 5 law-test groups (about 1.4e5 draws) and 4 stationarity groups (MH, Gibbs, HMC, NUTS; 64 chains x 250-2500 draws; random SPD Gaussian targets of dimension 1-4; f32/f64 alternating) "
-                "— about 45 moment tests; a group is one non-trivial case",
+        "rule": "per repetition (quick 1, thorough 6): 5 law-test groups (about 1.4e5 draws); 1 stream-independence group (seeded 8-chain MH with a one-word-per-step proposal: proposal/acceptance, acceptance/acceptance and "
+                "proposal/proposal correlations within and across chains at lags -1,0,1, about 500 tests at 6 sigma); 5 stationarity groups (MH, Gibbs, HMC fine step, HMC coarse step at 60-75 % of the stability limit with L = 3, NUTS; "
+                "64 chains x 200-2500 draws; random SPD Gaussian targets of dimension 1-4; f32/f64 alternating); 3 ergodicity groups (MH, HMC fine and coarse from one common start at mean + 4 sd, burn-in 400-2000) "
+                "— about 100 moment tests; a group is one non-trivial case",
         "trusted": ["hook traces report the draws the steps actually consume", "the 64 chains of a sampler are independent (C08) so that the across-chain standard error is valid"],
         "assumptions": ["false-alarm probability per run about 1e-6 (6-sigma thresholds on ~60 tests)"],
     },
